@@ -77,8 +77,49 @@ def run(ctx):
     done = filepass.run_layers_through_files(ctx, [filepass.layers_of_history(c) for c in cases], rng, "C06", "c06-disagreement")
     stats["distribution"]["through_layer_files"] = done
     stats["evaluations"] += done
+    stats["evaluations"] += depth_boundary_pass(ctx, stats["distribution"])
     stats["disagreements_checked"] = len(ctx.violations)
     return stats
+
+
+def depth_boundary_pass(ctx, dist):
+    """the identity theorem has the hypothesis height <= 1000 (the evaluator's depth guard refuses deeper documents even
+    when plain): documents nested 995..1003 deep, as maps, lists and alternating, must be accepted/refused by the real code
+    exactly where the model does"""
+    import sys
+    old = sys.getrecursionlimit()
+    sys.setrecursionlimit(50000)
+    try:
+        cases, meta = [], []
+        for shape in ("maps", "lists", "alternating"):
+            for d in range(995, 1004):
+                t = 1
+                for i in range(d):
+                    if shape == "maps" or (shape == "alternating" and i % 2 == 0):
+                        t = {"a": t}
+                    else:
+                        t = [t]
+                if not isinstance(t, dict):
+                    t = {"r": t}
+                cases.append(["history", None, hist.stream_history([t])])
+                meta.append((shape, d))
+        hist.collect_tables(ctx, cases, lambda c: {}, hist.docs_of_history)
+        im = ctx.impl(cases)
+        mo = ctx.model(cases)
+        accepted = 0
+        for (shape, d), a, b in zip(meta, im, mo):
+            oa = a[-1][1][0] if isinstance(a, list) and a and isinstance(a[-1], list) and len(a[-1]) > 1 and isinstance(a[-1][1], list) else str(a)[:40]
+            ob = b[-1][1][0] if isinstance(b, list) and b and isinstance(b[-1], list) and len(b[-1]) > 1 and isinstance(b[-1][1], list) else str(b)[:40]
+            accepted += 1 if oa == "ok" else 0
+            if oa != ob and len(ctx.violations) < 5:
+                ctx.violations.append({"name": "depth-%s-%d" % (shape, d), "property": "C06", "kind": "failing-input" if oa not in ("ok", "err") else "no-failing-input-found",
+                                       "theorem": "C06_identity / C06_escape have the hypothesis height v <= depth_limit; the model's depth guard and the code's differ here",
+                                       "why": "a plain document nested %d deep (%s): implementation %s, model %s" % (d, shape, oa, ob), "class": "c06-depth-boundary"})
+        dist["depth_boundary_cases"] = len(cases)
+        dist["depth_boundary_accepted"] = accepted
+        return len(cases)
+    finally:
+        sys.setrecursionlimit(old)
 
 
 def replay(ctx, payload):
